@@ -220,18 +220,28 @@ func verifHarness_C11_parser_cache_three_reads() {
 	w := []byte("GET /ab HTTP/1.1\r\nHost: ex.org\r\nX: y\r\n\r\n")
 	c1 := verifConc(verifInt("cut1", 1, len(w)-2))
 	c2 := verifConc(verifInt("cut2", c1+1, len(w)-1))
+	// the connection may be closed between two reads while a read that was
+	// already in flight still reaches Parse afterwards
+	closeAfter := verifChoose("closed_after_reads", 3) // 0: not closed
 	var err error
-	for _, piece := range [][]byte{w[:c1], w[c1:c2], w[c2:]} {
+	for i, piece := range [][]byte{w[:c1], w[c1:c2], w[c2:]} {
 		b := append([]byte(nil), piece...)
-		if err == nil {
+		if err == nil || closeAfter > 0 {
 			err = p.Parse(b)
 		}
 		for i := range b {
 			b[i] = 0xEE // the read buffer is reused by the poller
 		}
+		if closeAfter == i+1 {
+			p.CloseAndClean(nil)
+		}
 	}
-	verifAssertD(err == nil, "well-formed-request-accepted", "three-reads")
-	verifAssertD(host == "ex.org" && path == "/ab", "request-parsed-from-cached-pieces", "")
+	if closeAfter == 0 {
+		verifAssertD(err == nil, "well-formed-request-accepted", "three-reads")
+		verifAssertD(host == "ex.org" && path == "/ab", "request-parsed-from-cached-pieces", "")
+	} else {
+		verifReach("late-read-after-close")
+	}
 	p.CloseAndClean(nil)
 	verifAssertD(tr.frees <= tr.mallocs, "frees-bounded-by-allocations", "parser-cache")
 	verifAssert(false, "witness")
